@@ -14,9 +14,9 @@ pub mod m0 {
       relation r3(i64, i64, i64);
       relation r4(i64, i64, i64);
       relation r5(i64, i64);
-      r2(v1, v0, v1) <-- if let Some(v0) = Some(4), r1(v1, v2);
-      r3(v0, (v0 + 1), v0) <-- let v0 = 2, r1(v1, v0) if ((*v1) < 1), if (v0 < 6);
-      r4(v0, v1, (v0 + 1)) <-- if let Some(v0) = None::<i64>, r2(v0, (v0 + 0), v0), r3(v1, v0, v0), if (v0 < 6);
+      r2(v1, v0, v1) <-- if let Some(v0) = Some(4), r1(v1, v2), if (v0 <= 6);
+      r3(v0, (v0 + 1), v0) <-- let v0 = 2, r1(v1, v0) if ((*v1) < 1), if (v0 <= 6), if (v0 < 6);
+      r4(v0, v1, (v0 + 1)) <-- if let Some(v0) = None::<i64>, r2(v0, (v0 + 0), v0), r3(v1, v0, v0), if (v0 <= 6), if (v0 < 6);
       r2(v0, v8, v9) <-- if let Some(v9) = Some(2), r1(v0, v1), r5(v1, v9) let v8 = ((*v0) + 1);
       r3(v0, v1, v2) <-- r5(v0, v1) if ((*v0) < 4), r1(v1, v2) if ((*v2) != (*v1));
       r5((v0 + 1), v0) <-- for v0 in [3, 4], if (v0 < 6);
@@ -61,7 +61,7 @@ pub mod m1_ren0 {
       relation rel2_(i64);
       relation rel3_(i64, i64, i64);
       rel3_(0, 3, 3) <-- rel0_(1, 1);
-      rel3_(x0_, x0_, (x0_ + 1)) <-- let x0_ = 2, rel3_(x0_, (x0_ + 1), (x0_ + 1)), rel1_(x0_, x0_), if (x0_ < 6);
+      rel3_(x0_, x0_, (x0_ + 1)) <-- let x0_ = 2, rel3_(x0_, (x0_ + 1), (x0_ + 1)), rel1_(x0_, x0_), if (x0_ <= 6), if (x0_ < 6);
       rel3_(x0_, x1_, x2_) <-- rel0_(x0_, x1_) if ((*x0_) < 3), rel1_(x1_, x2_) if ((*x2_) != (*x1_));
       rel2_(x0_) <-- rel0_(x0_, x1_) if ((*x0_) < 3), rel1_(x1_, x2_) if ((*x2_) != (*x1_));
       rel3_(x1_, ((*x0_) + 1), x1_) <-- rel2_(x0_) if ((*x0_) < 2), rel1_(x1_, x0_), if ((*x0_) < 6);
@@ -102,21 +102,21 @@ pub mod m3_perm0 {
    use crate::common::*;
    ascent! {
       pub struct Prog;
-      relation r5(i64, i64, i64);
-      relation r3(i64, i64);
-      relation r4(i64, i64);
-      relation r1(i64);
-      relation r2(i64);
       relation r0(i64, i64);
+      relation r2(i64);
+      relation r1(i64);
+      relation r5(i64, i64, i64);
+      relation r4(i64, i64);
+      relation r3(i64, i64);
+      r5((v2 + 1), v2, 1) <-- r4(v0, v1) if ((*v0) < 1) let v2 = ((*v1) + 0), r3(v2, v0), let v3 = (*v1), if (v2 < 6), if (v2 <= 6);
       r1(((*v0) + 1)) <-- r0(1, v0), if ((*v0) < 6);
-      r4(v0, 1) <-- r0(v0, 3) if ((*v0) != 6), let v1 = (*v0);
-      r4(v0, v0) <-- r3(v0, 3), if ((*v0) <= 1), r2(v0);
-      r3(v0, v8) <-- if let Some(v9) = Some(2), r0(v0, v1), r3(v1, v9) let v8 = ((*v0) + 1);
-      r2(v1) <-- if let Some(v0) = Some(4), r1(v1), r0(v0, v2);
       r1(v1) <-- let v0 = 0, r0(v1, v0), if ((*v1) != 3);
-      r5((v2 + 1), v2, 1) <-- r4(v0, v1) if ((*v0) < 1) let v2 = ((*v1) + 0), r3(v2, v0), let v3 = (*v1), if (v2 < 6);
-      r3(v0, 1) <-- r2(v0) if ((*v0) != 1);
+      r4(v0, v0) <-- r3(v0, 3), if ((*v0) <= 1), r2(v0);
+      r2(v1) <-- if let Some(v0) = Some(4), r1(v1), r0(v0, v2);
+      r4(v0, 1) <-- r0(v0, 3) if ((*v0) != 6), let v1 = (*v0);
       r0(3, 0);
+      r3(v0, 1) <-- r2(v0) if ((*v0) != 1);
+      r3(v0, v8) <-- r0(v0, v1), if let Some(v9) = Some(2), r3(v1, v9) let v8 = ((*v0) + 1);
    }
    pub struct Inst { p: Prog, pool: Option<ascent::rayon::ThreadPool> }
    pub fn make(pool: Option<usize>) -> Box<dyn Driver> {
@@ -157,10 +157,10 @@ pub mod m4_ren1 {
       relation path(i64);
       relation node(i64, i64, i64);
       relation foo(i64, i64, i64);
-      foo(a, 0, 0) <-- if let Some(a) = Some(3), path(a) if (a <= 2);
-      foo(a, c, c) <-- if let Some(a) = Some(4), foo(b, a, c), path(((*b) + 1));
+      foo(a, 0, 0) <-- if let Some(a) = Some(3), path(a) if (a <= 2), if (a <= 6);
+      foo(a, c, c) <-- if let Some(a) = Some(4), foo(b, a, c), path(((*b) + 1)), if (a <= 6);
       node(a, b, c) <-- edge(a, b) if ((*a) < 5), edge(b, c) if ((*c) != (*b));
-      node(a, a, a) <-- path(3), let a = 3;
+      node(a, a, a) <-- path(3), let a = 3, if (a <= 6);
    }
    pub struct Inst { p: Prog, pool: Option<ascent::rayon::ThreadPool> }
    pub fn make(pool: Option<usize>) -> Box<dyn Driver> {
